@@ -190,6 +190,62 @@ def named_caches(ctx, work):
     ctx.case(("named",), nontrivial=True)
 
 
+def builtin_local(ctx, work):
+    """the stock file:// resource: source files with old and *descending* modification times (the first requested is
+    the most recently modified source); recency is about use of the cache entry, not about the age of the source"""
+    import shutil
+    import time as _time
+    from ocean_science_utilities.filecache.cache_object import FileCache
+    wit = {"builtin_local": True}
+    src, root = os.path.join(work, "src"), os.path.join(work, "cache_local")
+    shutil.rmtree(src, ignore_errors=True)
+    shutil.rmtree(root, ignore_errors=True)
+    os.makedirs(src)
+    try:
+        names, data = ["f1", "f2", "f3", "f4"], {}
+        for k, nme in enumerate(names):
+            data[nme] = (nme.encode() * 4000)[:4000]
+            pth = os.path.join(src, nme)
+            with open(pth, "wb") as fh:
+                fh.write(data[nme])
+            old = 1_000_000_000 - 86400 * 30 * k  # 2001, each one a month older than the one before
+            os.utime(pth, (old, old))
+        for parallel in (False, True):
+            shutil.rmtree(root, ignore_errors=True)
+            cache = FileCache(root, 9000 / 1e9, parallel=parallel)  # room for two files
+            cache.disable_progress_bar = True
+            held = []
+            good = True
+            detail = None
+            for nme in names:
+                _time.sleep(0.02)
+                pth = cache["file://" + os.path.join(src, nme)][0]
+                held.append(nme)
+                okb = os.path.exists(pth) and cl.read_noatime(pth) == data[nme]
+                on_disk = sorted(n for n in os.listdir(root) if cl.is_cache_name(n))
+                want_n = min(len(held), 2)
+                if not okb or len(on_disk) != want_n or len(cache) != want_n:
+                    good, detail = False, {"after": nme, "returned_exists_with_bytes": okb, "files": len(on_disk), "len": len(cache)}
+                    break
+                # the two most recently requested must be the ones still served without a new copy
+                for keep in held[-2:]:
+                    hp = cache["file://" + os.path.join(src, keep)][0]
+                    if not (os.path.exists(hp) and cl.read_noatime(hp) == data[keep]):
+                        good, detail = False, {"after": nme, "lost": keep}
+                if not good:
+                    break
+            ctx.count("C18.builtin_local_resource_histories")
+            ctx.check("C18.evicts-least-recently-used-first", good, wit, dict(detail or {}, parallel=parallel), key="C18:builtin-local:lru")
+    except Exception as e:
+        import traceback
+        ctx.check("C18.no-harness-surprise", False, wit, {"exception": repr(e), "traceback": traceback.format_exc(limit=6)},
+                  key="C18:builtin-local:exception")
+    finally:
+        shutil.rmtree(src, ignore_errors=True)
+        shutil.rmtree(root, ignore_errors=True)
+    ctx.case(("builtin-local",), nontrivial=True)
+
+
 def run_shard(ctx, shard):
     work = os.environ.get("VERIF_WORK", "/verif/.work")
     if shard["mode"] == "exhaustive":
@@ -208,11 +264,14 @@ def run_shard(ctx, shard):
             run_history(ctx, seq, lim, work, delays_seed=int(rng.integers(0, 2 ** 31)))
     else:
         named_caches(ctx, work)
+        builtin_local(ctx, work)
 
 
 def replay(ctx, case):
     work = os.environ.get("VERIF_WORK", "/verif/.work")
-    if case.get("named"):
+    if case.get("builtin_local"):
+        builtin_local(ctx, work)
+    elif case.get("named"):
         named_caches(ctx, work)
     else:
         run_history(ctx, case["history"], case["limit"], work, delays_seed=case.get("delays_seed"))
